@@ -35,8 +35,42 @@ func (l *agentLog) killedCopy() []string {
 	return append([]string(nil), l.killed...)
 }
 
-type doWatch struct{ ref vivid.ActorRef }
-type doUnwatch struct{ ref vivid.ActorRef }
+// done (optional) is closed once the agent has issued the call: the harness does not guess how long that takes
+type doWatch struct {
+	ref  vivid.ActorRef
+	done chan struct{}
+}
+type doUnwatch struct {
+	ref  vivid.ActorRef
+	done chan struct{}
+}
+
+// generous bounds of the single-shot waits (they end as soon as the awaited thing happens; a loaded machine must not
+// turn a slow round into a violation)
+const (
+	opWait   = 15 * time.Second // an effect of one remote operation
+	askWait  = 15 * time.Second // timeout of an Ask / Ping that is expected to be answered
+	callWait = 20 * time.Second // return of a call that has its own askWait inside
+)
+
+// watchAck / unwatchAck: returns when the agent has called ctx.Watch / ctx.Unwatch
+func watchAck(n *Node, agent, tgt vivid.ActorRef) {
+	done := make(chan struct{})
+	n.Sys.Tell(agent, &doWatch{tgt, done})
+	select {
+	case <-done:
+	case <-time.After(opWait):
+	}
+}
+
+func unwatchAck(n *Node, agent, tgt vivid.ActorRef) {
+	done := make(chan struct{})
+	n.Sys.Tell(agent, &doUnwatch{tgt, done})
+	select {
+	case <-done:
+	case <-time.After(opWait):
+	}
+}
 type doKill struct {
 	ref    vivid.ActorRef
 	poison bool
@@ -66,13 +100,19 @@ func spawnAgent(n *Node, name string, al *agentLog) vivid.ActorRef {
 		switch m := ctx.Message().(type) {
 		case *doWatch:
 			ctx.Watch(m.ref)
+			if m.done != nil {
+				close(m.done)
+			}
 		case *doUnwatch:
 			ctx.Unwatch(m.ref)
+			if m.done != nil {
+				close(m.done)
+			}
 		case *doKill:
 			ctx.Kill(m.ref, m.poison, m.reason)
 		case *doPing:
 			t0 := time.Now()
-			p, err := ctx.Ping(m.ref, 5*time.Second)
+			p, err := ctx.Ping(m.ref, askWait)
 			switch {
 			case err != nil:
 				m.out <- "error: " + err.Error()
@@ -135,7 +175,7 @@ func spawnTarget(n *Node, name string, tl *tgtLog) vivid.ActorRef {
 // settle: an Ask from `from` to target answers only after the system messages `from` sent to it before (Watch,
 // Unwatch: same connection, system queue first) were handled
 func settle(from *Node, target vivid.ActorRef) error {
-	_, err := from.Sys.Ask(target, &XMsg{Kind: KAsk, Seq: 1}, 5*time.Second).Result()
+	_, err := from.Sys.Ask(target, &XMsg{Kind: KAsk, Seq: 1}, askWait).Result()
 	return err
 }
 
@@ -160,7 +200,7 @@ func (h *H) runTransparency() {
 		if i%4 == 0 {
 			plan := func(int) Plan { p := defaultPlan(); p.Mode, p.RandMax, p.Seed = mode, 9, h.seed+uint64(i); return p }
 			for _, pr := range [][2]*Node{{A, B}, {B, A}, {C, B}, {B, C}, {A, C}, {C, A}} {
-				if !h.resync(pr[0], pr[1], plan) {
+				if !h.resync(pr[0], pr[1], plan) { // resync retries once by itself
 					h.o.Monitor("c15-no-connection", nil, "no connection "+pr[0].Name+"->"+pr[1].Name)
 					h.abort = true
 					return
@@ -218,9 +258,8 @@ func (h *H) killWatchRound(A, B, C *Node, i, mode int) {
 	for _, x := range ws {
 		x.log = &agentLog{}
 		x.ref = spawnAgent(x.node, x.name, x.log)
-		x.node.Sys.Tell(x.ref, &doWatch{x.tgt})
+		watchAck(x.node, x.ref, x.tgt)
 	}
-	time.Sleep(2 * time.Millisecond)
 	desc := lib.L(lib.S("remote-kill-watch"), lib.NI(i), lib.S(modeNames[mode]))
 	for _, x := range []struct {
 		n *Node
@@ -228,6 +267,7 @@ func (h *H) killWatchRound(A, B, C *Node, i, mode int) {
 	}{{A, remote}, {C, remote}, {B, tref}} {
 		if err := settle(x.n, x.t); err != nil {
 			h.o.Monitor("c15-remote-ask", desc, fmt.Sprintf("Ask from %s to the freshly spawned actor %s failed: %v", x.n.Name, refStr(x.t), err))
+			h.slowRounds++
 			return
 		}
 	}
@@ -235,7 +275,7 @@ func (h *H) killWatchRound(A, B, C *Node, i, mode int) {
 	poison := i%2 == 1
 	reason := fmt.Sprintf("why-%d", i)
 	A.Sys.Tell(ws[0].ref, &doKill{remote, poison, reason})
-	okAll := waitUntil(5*time.Second, func() bool {
+	okAll := waitUntil(opWait, func() bool {
 		for _, x := range ws {
 			if x.log.nKilled() < 1 {
 				return false
@@ -296,25 +336,25 @@ func (h *H) unwatchRound(A, B, C *Node, i, mode int) {
 	for _, x := range ws {
 		x.log = &agentLog{}
 		x.ref = spawnAgent(x.node, same, x.log)
-		x.node.Sys.Tell(x.ref, &doWatch{x.tgt})
+		watchAck(x.node, x.ref, x.tgt)
 	}
-	time.Sleep(2 * time.Millisecond)
 	desc := lib.L(lib.S("remote-unwatch"), lib.NI(i), lib.S(modeNames[mode]))
 	for _, x := range ws {
 		if err := settle(x.node, x.tgt); err != nil {
 			h.o.Monitor("c15-remote-ask", desc, fmt.Sprintf("Ask from %s failed: %v", x.node.Name, err))
+			h.slowRounds++
 			return
 		}
 	}
 	quitter := ws[i%3]
-	quitter.node.Sys.Tell(quitter.ref, &doUnwatch{quitter.tgt})
-	time.Sleep(2 * time.Millisecond)
+	unwatchAck(quitter.node, quitter.ref, quitter.tgt)
 	if err := settle(quitter.node, quitter.tgt); err != nil {
 		h.o.Monitor("c15-remote-ask", desc, fmt.Sprintf("Ask from %s failed: %v", quitter.node.Name, err))
+		h.slowRounds++
 		return
 	}
 	B.Sys.Tell(ws[2].ref, &doKill{tref, false, "unwatch-round"})
-	if !waitUntil(5*time.Second, func() bool {
+	if !waitUntil(opWait, func() bool {
 		for _, x := range ws {
 			if x != quitter && x.log.nKilled() < 1 {
 				return false
@@ -355,8 +395,9 @@ func (h *H) pingRound(A, B, C *Node, i, mode int) {
 			if r != "" {
 				h.o.Monitor("c15-remote-ping", desc, fmt.Sprintf("Ping from %s to %s: %s", n.Name, refStr(remote), r))
 			}
-		case <-time.After(8 * time.Second):
-			h.o.Monitor("c15-remote-ping", desc, fmt.Sprintf("Ping from %s to %s did not return within 8 s", n.Name, refStr(remote)))
+		case <-time.After(callWait):
+			h.o.Monitor("c15-remote-ping", desc, fmt.Sprintf("Ping from %s to %s did not return within %v", n.Name, refStr(remote), callWait))
+			h.slowRounds++
 		}
 		h.o.Stats["remote-pings"]++
 	}
@@ -381,7 +422,7 @@ func (h *H) pipeRound(A, B, C *Node, i, mode int) {
 		desc := lib.L(lib.S("remote-pipe"), lib.NI(i), lib.Bool(fail), lib.S(modeNames[mode]))
 		l0, r0 := lf.nPipes(), rf.nPipes()
 		msg := &XMsg{Kind: KAsk, Seq: uint64(1000 + i), Data: []byte("pipe")}
-		timeout := 5 * time.Second
+		timeout := askWait
 		if fail {
 			msg.Seq = noReply
 			timeout = 150 * time.Millisecond
@@ -391,12 +432,12 @@ func (h *H) pipeRound(A, B, C *Node, i, mode int) {
 		var id string
 		select {
 		case id = <-idc:
-		case <-time.After(5 * time.Second):
+		case <-time.After(opWait):
 			h.o.Monitor("c15-remote-pipe", desc, "PipeTo did not return")
 			return
 		}
 		// the local forwarder has its result after at most the Ask timeout (150 ms); the remote one a round trip later
-		waitUntil(2*time.Second, func() bool { return lf.nPipes() > l0 && rf.nPipes() > r0 })
+		waitUntil(opWait, func() bool { return lf.nPipes() > l0 && rf.nPipes() > r0 })
 		time.Sleep(10 * time.Millisecond)
 		check := func(where string, al *agentLog, from int) string {
 			al.mu.Lock()
